@@ -9,6 +9,7 @@ import LianVerif.Drv.Loader
 import LianVerif.Drv.MapLoader
 import LianVerif.Drv.Cfg
 import LianVerif.Drv.Determinism
+import LianVerif.Drv.ReachDef
 
 open Lean LianVerif.Drv
 
@@ -22,6 +23,7 @@ def dispatch (j : Json) : Except String Json := do
   | "cfg" => LianVerif.Drv.Cfg.handleCfg j
   | "cfgcheck" => LianVerif.Drv.Cfg.handleCheck j
   | "determinism" => LianVerif.Drv.Determinism.handle j
+  | "worklist" | "reachdef" => LianVerif.Drv.ReachDef.handle j
   | _ => throw s!"unknown model {m}"
 
 partial def loop (hin hout : IO.FS.Stream) : IO Unit := do
